@@ -101,6 +101,12 @@ func (it *Interp) doCall(g *G, fr *Frame, ins ssa.Instruction, c *ssa.CallCommon
 		fr.pc++
 		return stOK
 	}
+	if it.initMode && fv.fn.Pkg != nil && strings.HasPrefix(fv.fn.Name(), "init#") && strings.HasSuffix(fv.fn.Pkg.Pkg.Path(), "/diam/dict") && it.cfg.Params["init_dict"] == 0 {
+		// the dict package's declared init function loads the embedded dictionaries into dict.Default:
+		// skipped unless the harness asks for it; the package-level variable initialisers still run
+		fr.pc++
+		return stOK
+	}
 	if mode == callNormal && it.cfg.Summaries[fv.fn.String()] {
 		// pure display helper summarised by an opaque result; its own paths are checked in isolation
 		it.intrHit["summary "+fv.fn.String()]++
